@@ -791,7 +791,7 @@ struct Plan { long long nFlow, nM, nX, nS, nA; int timeout; };
 static Plan planFor(const vh::Args &a) {
   if (a.thorough()) return {12000, 60000, 3000, 3000, 20000, 300};
   if (a.search()) return {2500, 20000, 600, 1500, 20000, 120};
-  return {1500, 20000, 400, 400, 6000, 120};
+  return {1500, 20000, 1200, 400, 6000, 120};
 }
 static const int MBATCH = 500;
 
